@@ -11,14 +11,18 @@ def key_fn(case, obs, verdict):
     f = case.split(" ")
     why = verdict.split(":", 1)[1] if ":" in verdict else verdict
     why = why.split(" ")[0]
+    # results on a shared stream (phout without a destination, sink: stdout / stderr): named in the key
+    stream = ("@" + f[-1]) if f[-1] in ("stdout", "stderr") else ""
     if f[0] == "aggr":
-        return "aggr:%s:%s" % (f[1], why)           # format + what fails
+        return "aggr:%s%s:%s" % (f[1], stream, why)  # format (+ stream) + what fails
     if f[0] == "engine":
         return "engine:%s:%s" % (f[1], why)
     if f[0] == "signal":
-        return "signal:%s" % why                     # e.g. signal:exit-before-aggregator-close
+        return "signal%s:%s" % (stream, why)         # e.g. signal:exit-before-aggregator-close
     if f[0] == "fail":
-        return "failed-run:%s" % why                 # the cli's "engine returned an error" exit path
+        return "failed-run%s:%s" % (stream, why)     # the cli's "engine returned an error" exit path
+    if f[0] == "end":
+        return "normal-end%s:%s" % (stream, why)     # the run ends by itself, the process exits with status 0
     if f[0] == "line":
         return "line:ids-%s:%s" % ("on" if f[1] == "1" else "off", why)
     return "%s:%s" % (f[0], why)
@@ -29,6 +33,9 @@ def what_fn(case, obs, verdict):
     if f[0] == "signal":
         info = obs.split("info:", 1)[1] if "info:" in obs else ""
         return "pandora stopped with SIG%s after %s ms: %s (%s)" % (f[1], f[2], verdict, info)
+    if f[0] == "end":
+        info = obs.split("info:", 1)[1] if "info:" in obs else ""
+        return "pandora run of %s shots ending normally, results on %s: %s (%s)" % (f[1], f[-1], verdict, info)
     if f[0] == "fail":
         info = obs.split("info:", 1)[1] if "info:" in obs else ""
         return "pandora run failing at shot %s (gun fault): %s (%s)" % (f[1], verdict, info)
@@ -55,7 +62,7 @@ def build_pandora_verif(ctx):
 
 
 RULE = ("non-trivial: line/setters cases inside the guard of C06_line_roundtrip; aggr/engine cases with at least 2 reports; "
-        "signal / failed-run shots in which at least one report was complete before the cancel; distinct = distinct case lines")
+        "signal / failed-run / normal-end shots in which at least one report was complete before the cancel; distinct = distinct case lines")
 TRUSTED = [
     "translator harness/cmd/translate phout (field keys compiled from /repo through the verif hook; go/ast pattern over cli.awaitPandoraTermination for gen_cli_signal_waits)",
     "extraction: ExtrOcamlBasic only; OCaml driver ocaml/C06/main.ml + ocaml/common/conv.ml (zarith for decimal I/O; sample-of-id function duplicated from the Go harness; lazy-receive schedule reconstruction for trace acceptance)",
@@ -99,6 +106,7 @@ def run(ctx):
                 # a proof, bridge or the correspondence no longer checks: widen the search for a concrete failing input
                 os.environ["C06_SIGNAL_SHOTS"] = "12"
                 os.environ["C06_FAIL_SHOTS"] = "6"
+                os.environ["C06_END_SHOTS"] = "8"
                 st2 = common.correspondence(ctx, h, m, key_fn=key_fn, what_fn=what_fn, tier="thorough", label="escalated")
                 if st2:
                     cov["escalated_evaluations"] = st2["evaluations"]
